@@ -1,6 +1,7 @@
 package c04
 
 import (
+	"crypto/sha256"
 	"fmt"
 	"os"
 	"runtime"
@@ -19,6 +20,16 @@ import (
 	"verif/harness/lib/ev"
 )
 
+// hkey identifies a canonical state (128 bits of the SHA-256 of its rendering).
+type hkey [16]byte
+
+func hk(s string) hkey {
+	h := sha256.Sum256([]byte(s))
+	var k hkey
+	copy(k[:], h[:16])
+	return k
+}
+
 // node is one reached state with the shortest call history that reaches it.
 type node struct {
 	pins   []api.Pin
@@ -34,7 +45,10 @@ type explorer struct {
 	cfg   config // configuration the states were produced under
 	calls []call
 	nodes []node
-	seen  map[string]int
+	seen  map[hkey]struct{}
+	// states of the last level that were only counted (their pinsets are not
+	// kept: nothing is applied from them)
+	countedOnly int
 	sec   *ev.Section
 }
 
@@ -49,10 +63,10 @@ func (e *explorer) history(i int) []string {
 
 func (e *explorer) addRoot(pins []api.Pin, how string) {
 	k := stateKey(pins)
-	if _, ok := e.seen[k]; ok {
+	if _, ok := e.seen[hk(k)]; ok {
 		return
 	}
-	e.seen[k] = len(e.nodes)
+	e.seen[hk(k)] = struct{}{}
 	e.nodes = append(e.nodes, node{pins: clonePins(pins), key: k, parent: -1, via: how})
 }
 
@@ -140,6 +154,7 @@ func transition(r *rig, hist func() []string, pins []api.Pin, key string, c call
 	log := r.sh.Calls()
 	vs, class, nontrivial := judge(r.cfg, pre, c, res, post, log, key != postKey)
 	R.Eval(sec, r.cfg.String()+"|"+class, nontrivial)
+	progress.Add(1)
 	R.Outcome(sec, c.API+":"+errClass(res.Err))
 	if len(vs) > 0 {
 		report(vs, r.cfg, append(hist(), c.String()), c, pre, post, res, len(log))
@@ -149,13 +164,18 @@ func transition(r *rig, hist func() []string, pins []api.Pin, key string, c call
 
 // expand applies every call from every node of the frontier (on peers running
 // under runCfg) and returns the indices of the newly reached states.
-func (e *explorer) expand(t *testing.T, runCfg config, frontier []int, depth int, budget *ev.Budget, grow bool) (next []int, complete bool) {
+//
+// grow=false: only judge (follower pass). last=true: the successors are the
+// deepest level; they are counted, and only every 50th of them is kept as a
+// node (for the replay sample).
+func (e *explorer) expand(t *testing.T, runCfg config, frontier []int, depth int, budget *ev.Budget, grow, last bool) (next []int, complete bool) {
 	type fresh struct {
 		idx  int
+		key  string
 		pins []api.Pin
 	}
 	var mu sync.Mutex
-	found := map[string]fresh{}
+	found := map[hkey]fresh{}
 	n := len(frontier) * len(e.calls)
 	var capped atomic.Bool
 	var done atomic.Int64
@@ -187,25 +207,34 @@ func (e *explorer) expand(t *testing.T, runCfg config, frontier []int, depth int
 		if !grow {
 			return
 		}
-		if _, ok := e.seen[k]; ok {
+		h := hk(k)
+		if _, ok := e.seen[h]; ok {
 			return
 		}
 		mu.Lock()
-		if f, ok := found[k]; !ok || i < f.idx {
-			found[k] = fresh{i, clonePins(post)}
+		if f, ok := found[h]; !ok || i < f.idx {
+			if last && i%50 != 0 {
+				found[h] = fresh{idx: i}
+			} else {
+				found[h] = fresh{i, k, clonePins(post)}
+			}
 		}
 		mu.Unlock()
 	})
 	R.Transitions(done.Load())
-	var keys []string
+	var keys []hkey
 	for k := range found {
 		keys = append(keys, k)
 	}
 	sort.Slice(keys, func(a, b int) bool { return found[keys[a]].idx < found[keys[b]].idx })
 	for _, k := range keys {
 		f := found[k]
-		e.seen[k] = len(e.nodes)
-		e.nodes = append(e.nodes, node{pins: f.pins, key: k, parent: frontier[f.idx/len(e.calls)], via: e.calls[f.idx%len(e.calls)].String(), call: e.calls[f.idx%len(e.calls)], depth: depth + 1})
+		e.seen[k] = struct{}{}
+		if f.pins == nil && f.key == "" {
+			e.countedOnly++
+			continue
+		}
+		e.nodes = append(e.nodes, node{pins: f.pins, key: f.key, parent: frontier[f.idx/len(e.calls)], via: e.calls[f.idx%len(e.calls)].String(), call: e.calls[f.idx%len(e.calls)], depth: depth + 1})
 		next = append(next, len(e.nodes)-1)
 	}
 	return next, done.Load() == int64(n)
@@ -220,7 +249,7 @@ func (e *explorer) bfs(t *testing.T, maxDepth int, budget *ev.Budget) {
 	}
 	for d := 0; d < maxDepth && len(frontier) > 0; d++ {
 		start := time.Now()
-		next, complete := e.expand(t, e.cfg, frontier, d, budget, true)
+		next, complete := e.expand(t, e.cfg, frontier, d, budget, true, d == maxDepth-1)
 		if os.Getenv("C04_VERBOSE") != "" {
 			fmt.Printf("  %s %s depth %d: %d states x %d calls -> %d new states (%.1fs)\n", e.name, e.cfg, d, len(frontier), len(e.calls), len(next), time.Since(start).Seconds())
 		}
